@@ -5,6 +5,7 @@ CONSTANTS
     GrantPathOrder <- MCHttpGrant
     OptOrder <- MCOptOrder
     MaxGranted = 2
+    ChainOnly = FALSE
     AdminMaxGranted = 0
     MaxSegs = 0
     RelPathOrder <- MCEmpty
